@@ -536,10 +536,38 @@ def rule_o8(ctx):
     lp = min(lp, key=lambda l: len(l["body"]))
     fed = set()
     inloop = set()
+    thru = dict(mir.TRANSPARENT)
+    thru["std::iter::Iterator::filter"] = 0
     for b, t in body.calls():
         if mir.last_seg(mir.callee(t) or "") in ("push", "extend", "extend_from_slice", "append") and len(t["args"]) >= 2 and wl & {(r, tuple(p)) for (r, p) in body.trace_operand(t["args"][0])}:
-            for (r, p) in body.trace_operand(t["args"][1]):
+            for (r, p) in body.trace_operand(t["args"][1], through=thru):
                 (inloop if b in lp["body"] else fed).add((r, tuple(p)))
+    # roots may be filtered only by `wire >= shift` (constants and inputs are skipped when popped anyway)
+    for b, t in body.calls():
+        if t["func"].get("declared") == "std::iter::Iterator::filter" or mir.callee(t) == "std::iter::Iterator::filter":
+            ok = False
+            why = "the predicate is not a single comparison `wire >= shift`"
+            for (r, p) in body.trace_operand(t["args"][1], through={}):
+                if r[0] == "agg":
+                    cl = body.blocks[r[1]]["stmts"][r[2]]["rv"].get("closure")
+                    if cl:
+                        cb = ctx.body(cl)
+                        for blk in cb.blocks:
+                            for st in blk["stmts"]:
+                                if st["k"] == "assign" and st["place"]["l"] == 0 and st["rv"]["k"] == "binop":
+                                    l_item = any(rr == ("arg", 2) for (rr, pp) in cb.trace_operand(st["rv"]["l"]))
+                                    r_item = any(rr == ("arg", 2) for (rr, pp) in cb.trace_operand(st["rv"]["r"]))
+                                    other = st["rv"]["r"] if l_item else st["rv"]["l"]
+                                    is_shift = any(pp and pp[-1] == "shift" for (f2, rr, pp) in ctx.lifted_trace(cb, other))
+                                    op = st["rv"]["op"]
+                                    if is_shift and ((l_item and op == "Ge") or (r_item and op == "Le")):
+                                        ok = True
+                                    elif is_shift:
+                                        why = "the predicate `wire %s shift` also drops the first gate (index == shift)" % op if (l_item and op == "Gt") or (r_item and op == "Lt") else "the predicate compares with %s" % op
+            if ok:
+                res.ok({"site": "filter at line %d" % t["sp"][1], "verdict": "roots filtered by `wire >= shift` only"})
+            else:
+                res.bad(Finding("O8", fid, "roots of the sweep are filtered", "wires are kept off the worklist by a filter: %s" % why, t["sp"]))
     # roots: output gates (the argument the worklist is cloned from) and every field of the panic record
     if any(r == ("arg", 2) for (r, p) in wl):
         res.ok({"root": "output_gates", "verdict": "the worklist starts as a copy of the outputs"})
